@@ -13,6 +13,7 @@ CONSTANTS
   Submittable <- N1Sub
   MaxSub = 2
   PNames <- P3
+  Observing = TRUE
 VIEW view
 INVARIANTS TypeOK StateIsMainChain NoStalePooled NoDupSlot ReadyRunsGapFree NoPooledTxOnMainChain ExecutedNoncesSequential NoHashExecutedTwice ProducedBlockIsValid
 PROPERTIES ReturnedToPool PoolChangesExplained NoChangeWithoutNewBest
